@@ -125,7 +125,7 @@ def draw_chain(draw):
         common = [c for c in cols_now if c in ocols and not sch.cols[c]["null"] and not sch.cols[c]["zn"] and sch.cols[c]["type"] != "bool"]
         if common:
             k = g.subset(common, lo=1, hi=2)
-            steps.append({"op": "natural_join", "other": other, "on": [[c, c] for c in k], "jointype": g.pick(["inner", "left"]), "check": True})
+            steps.append({"op": "natural_join", "other": other, "on": [[c, c] for c in k], "jointype": g.pick(["inner", "left"]), "check": g.pick([True, True, "by"])})
     return {"tables": case["tables"], "table": tname, "steps": steps, "expr_mode": "text"}
 
 
@@ -141,6 +141,8 @@ def _apply(step, src_ops, case_tables, mode):
     if nd["op"] == "natural_join":
         other = TableDescription(table_name=nd["other"], column_names=[e[0] for e in case_tables[nd["other"]]["cols"]])
         on = [a for a, b in nd["on"]]
+        if nd.get("check") == "by":  # deprecated spelling of the same request
+            return src_ops.natural_join(b=other, on=on, jointype=nd["jointype"], check_all_common_keys_in_by=True)
         return src_ops.natural_join(b=other, on=on, jointype=nd["jointype"], check_all_common_keys_in_equi_spec=bool(nd.get("check")))
     nd["src"] = 0
     return spec.build_node(nd, {0: src_ops}, {"tables": case_tables}, mode)
